@@ -127,6 +127,9 @@ def coherent_dedispersion(z, DM, /, *, ref_freq=None, chirp=None):
     if chirp is None:
         chirp = DM.chirp_from_signal(z, ref_freq=ref_freq)
 
+    if not isinstance(chirp, da.Array):
+        chirp = np.asanyarray(chirp)
+
     chirp = chirp[(slice(None),) * chirp.ndim + (None,) * (z.ndim - chirp.ndim)]
     x = pb.fft.ifft(pb.fft.fft(z.data, axis=0) * chirp, axis=0)
 
